@@ -9,6 +9,7 @@
 (*   update  : function  name -> Expr      (domain need not equal state)   *)
 (*   calmap  : function  name -> Rational  (domain need not equal calib)   *)
 (*   pnoise  : function  name -> Rational  (domain need not equal control) *)
+(*   ppairs  : function  pair-key -> <<name, name>>  (tuple-keyed entries) *)
 (*   sensors : key -> (reading -> Expr)                                    *)
 (*   snoise  : key -> (reading -> Rational)                                *)
 (*                                                                         *)
@@ -65,6 +66,7 @@ ReKey(f, k, k2) == Put(Drop(f, k), k2, f[k])
 
 Fresh  == "w_"       \* a symbol / reading name that no base definition declares
 FreshK == "zzz"      \* a sensor key that no base definition declares
+PairKey == "@pair"   \* stands for a process-noise entry keyed by a tuple of two symbols (d.ppairs says which)
 
 (***************************************************************************)
 (* The fault catalogue.  A fault is a record [kind, pos(, pos2)].          *)
@@ -84,6 +86,7 @@ FaultsOf(d) ==
   \cup {[kind |-> "pnoise.negative", pos |-> s] : s \in DOMAIN d.pnoise}
   \cup {[kind |-> "pnoise.rekey-unknown", pos |-> s] : s \in DOMAIN d.pnoise}
   \cup {[kind |-> "pnoise.add-state", pos |-> s] : s \in d.state}
+  \cup {[kind |-> "pnoise.add-pair", pos |-> c1, pos2 |-> c2] : c1 \in d.control, c2 \in d.control}
   \cup {[kind |-> "sensor.uses-control", pos |-> k, pos2 |-> r, sym |-> c] :
             k \in DOMAIN d.sensors, r \in UNION {DOMAIN d.sensors[kk] : kk \in DOMAIN d.sensors}, c \in d.control}
   \cup {[kind |-> "sensor.uses-undeclared", pos |-> k, pos2 |-> r] :
@@ -107,6 +110,8 @@ Applicable(f, d) ==
     [] f.kind \in {"pnoise.drop", "pnoise.rekey-unknown"} -> f.pos \in DOMAIN d.pnoise /\ f.pos \in d.control /\ Fresh \notin DOMAIN d.pnoise
     [] f.kind = "pnoise.negative" -> f.pos \in DOMAIN d.pnoise /\ f.pos \in d.control /\ RSign(d.pnoise[f.pos]) > 0
     [] f.kind = "pnoise.add-state" -> f.pos \in d.state /\ f.pos \notin DOMAIN d.pnoise
+    \* an entry keyed by a PAIR of controls (an off-diagonal covariance) is not "noise for a declared control"
+    [] f.kind = "pnoise.add-pair" -> f.pos \in d.control /\ f.pos2 \in d.control /\ PairKey \notin DOMAIN d.pnoise
     [] f.kind = "sensor.uses-control" -> f.pos \in DOMAIN d.sensors /\ f.pos2 \in DOMAIN d.sensors[f.pos] /\ f.sym \in d.control
     [] f.kind = "sensor.uses-undeclared" -> f.pos \in DOMAIN d.sensors /\ f.pos2 \in DOMAIN d.sensors[f.pos]
     [] f.kind = "snoise.drop-sensor" -> f.pos \in DOMAIN d.snoise /\ f.pos \in DOMAIN d.sensors
@@ -130,6 +135,7 @@ Inject(f, d) ==
     [] f.kind = "pnoise.negative" -> [d EXCEPT !.pnoise[f.pos] = RNeg(@)]
     [] f.kind = "pnoise.rekey-unknown" -> [d EXCEPT !.pnoise = ReKey(@, f.pos, Fresh)]
     [] f.kind = "pnoise.add-state" -> [d EXCEPT !.pnoise = Put(@, f.pos, One)]
+    [] f.kind = "pnoise.add-pair" -> [d EXCEPT !.pnoise = Put(@, PairKey, Zero), !.ppairs = Put(@, PairKey, <<f.pos, f.pos2>>)]
     [] f.kind = "sensor.uses-control" ->
          [d EXCEPT !.sensors[f.pos][f.pos2] = Bin("add", @, Sym(f.sym))]
     [] f.kind = "sensor.uses-undeclared" ->
